@@ -386,6 +386,9 @@ class SimDevice(object):
         self.rid_of = rid_of or (lambda lid, dev: 1000 + lid)
         self.host_maxdata = host_maxdata
         self.service_for = None      # callable(dest bytes, dev) -> service
+        self.zero_ops = {}           # op index -> 'a0' | 'a1' | 'both': data packets of that operation's stream carry zero ids (legacy adbd)
+        self.zero_dest = {}          # the same, by destination
+        self.stray_zero_ops = {}     # op index -> payload: the OPEN of that operation is answered by one WRTE(0, 0, payload) only
         self.shell_scripts = {}      # dest -> list of chunks
         self.default_script = [b'']
         self.reorder = False         # allow service WRITEs to overtake OKAYs of later host WRITEs
@@ -451,6 +454,8 @@ class SimDevice(object):
         h = wire.parse_header(fr[:24])
         meta['pk'] = dict(cmd=wire.WORD_CMD.get(h['cmdw'], '?'), a0=wire.limbs(h['a0']), a1=wire.limbs(h['a1']), n=self.nframes,
                           plen=h['len'], unit=meta.get('unit', 0), syms=self.syms_of(fr[24:]) if self.syms_of else [])
+        if 'sl' in meta:
+            meta['pk']['sl'] = wire.limbs(meta['sl'])      # the stream the device means by a packet that carries a zero id
         meta['payload'] = bytes(fr[24:])
         self.rec.ev('dv', t='dev', _payload=meta['payload'], **meta['pk'])
 
@@ -471,6 +476,7 @@ class SimDevice(object):
             rid = self.rid_of(lid, self)
             st = Stream(lid, rid, dest)
             st.op = getattr(self, 'cur_op', None)
+            st.zero = self.zero_ops.get(st.op) or self.zero_dest.get(bytes(dest).rstrip(b'\0'))     # legacy adbd: data packets with zero ids
             self.streams[lid] = st
             self.all_streams.append(st)
             self.every_stream.append(st)
@@ -481,6 +487,11 @@ class SimDevice(object):
                 self.hold_next_open = False
                 self.hold.add(lid)
                 self.held_streams.append(st)
+            if st.op is not None and st.op in self.stray_zero_ops:
+                # a confused legacy service: instead of answering the OPEN it sends data with zero ids and nothing else
+                st.dev_closed = True
+                self.put(wire.frame('WRTE', 0, 0, self.stray_zero_ops[st.op]), lid=lid, sl=lid)
+                return
             if self.refuse_open(dest):
                 st.acks.append(('CLSE0',))
                 st.dev_closed = True
@@ -557,13 +568,17 @@ class SimDevice(object):
                 self.put(wire.frame('CLSE', 0, st.lid), lid=lid)
         else:
             k, payload, _ = st.data.pop(0)
+            z = getattr(st, 'zero', None)
+            a0 = 0 if z in ('a0', 'both') else st.rid
+            a1 = 0 if z in ('a1', 'both') else st.lid
+            extra = dict(sl=st.lid) if z else {}
             if k == 'WRTE':
                 st.await_ack = True
                 st.sent.append(payload)
-                self.put(wire.frame('WRTE', st.rid, st.lid, payload), lid=lid, unit=len(st.sent))
+                self.put(wire.frame('WRTE', a0, a1, payload), lid=lid, unit=len(st.sent), **extra)
             else:
                 st.dev_closed = True
-                self.put(wire.frame('CLSE', st.rid, st.lid), lid=lid)
+                self.put(wire.frame('CLSE', a0, a1), lid=lid, **extra)
 
     def pump(self):
         """Let the device put one more packet on the wire; False if it has nothing to say."""
